@@ -377,9 +377,10 @@ func RandomSpelling(r *rand.Rand) spec.Spelling {
 			}
 			return s
 		},
-		AltName: func() bool { return r.Intn(3) == 0 },
-		AltWild: func() bool { return r.Intn(3) == 0 },
-		NoRoot:  func() bool { return r.Intn(3) == 0 },
+		AltName:   func() bool { return r.Intn(3) == 0 },
+		AltWild:   func() bool { return r.Intn(3) == 0 },
+		NoRoot:    func() bool { return r.Intn(3) == 0 },
+		EmptyStep: func() bool { return r.Intn(2) == 0 },
 	}
 }
 
